@@ -362,6 +362,9 @@ def check(run):
         fails += f2
         histories += n2
     run.bounded.append({"what": "native float histories (predict + interleaved updates) through the real filter; oracle: no refusal, covariance symmetric and PSD relative to magnitude; diffuse priors (1e6, 1e8 x sensor noise) on the mass model; the same history re-expressed in units 2^k (k = 20, -20, 10) gives the same verdict and exactly the scaled covariances", "bound": f"{histories} histories x up to {steps} steps", "failures": fails, "counted_as_proved": False, "seconds": round(time.time() - t0, 1)})
+    from checks.ekf_common import dtype_sweep
+
+    dtype_sweep(run, "C09", ("predicted", "posterior"))
     if run.tier == "thorough":
         lean_lemmas(run)
     run.extra["evaluations"] = histories
@@ -378,6 +381,10 @@ def replay_file(payload):
         ok, why = singular_history(inp["steps"], inp["dt"])
         print("replay singular-covariance history:", why)
         return ok
+    if inp.get("dtypes"):
+        from checks.ekf_common import replay_dtypes
+
+        return replay_dtypes(inp)
     if inp.get("model") == "diffuse":
         verdict, why, covs = diffuse_history(inp["seed"], inp["prior_scale"], unit=inp.get("unit", 1.0))
         if inp.get("unit", 1.0) != 1.0:
